@@ -186,6 +186,12 @@ class Run(object):
         self.exhaustive = False
         self.rule = ''
         self.tlc_runs = []
+        import glob
+        for old_replay in glob.glob(os.path.join(OUT, 'replays', '%s-*.json' % prop)):
+            try:
+                os.unlink(old_replay)           # replay files of earlier runs of this check
+            except OSError:
+                pass
         self.known_findings = [k for k in json.load(open(os.path.join(VERIF, 'known_findings.json')))
                                if k['property'] == prop and k['status'] == 'known']
 
